@@ -194,6 +194,7 @@ func run(r *ev.Run, cfg props.Cfg, prop string) {
 		r.Count("matrix_cells_hit", int64(len(out)))
 		r.Count("phases_hit", int64(len(phases)))
 	}
+	r.Count("random_walks_continued_on_a_clone_of_the_machine", atomic.LoadInt64(&mexplore.Clones))
 	r.Count("steps_skipped_after_an_ill_dimensioned_forced_state", atomic.LoadInt64(&mexplore.NarrowSkips))
 	if n := atomic.LoadInt64(&mexplore.HarnessPanics); n > 0 {
 		r.Note("%d steps were skipped because the explorer's bookkeeping could not follow the implementation (only possible after a reported defect)", n)
